@@ -101,6 +101,10 @@ func ServerConfiguration() {
 	}
 	vsym.Assert("T5-client-authorities-are-exactly-the-configured-one", vsym.Rec("clientcas") == want)
 	vsym.Assert("T6-a-server-certificate-is-presented", vsym.Rec("certificates") == "1")
+	// nothing in the TLS configuration lets a peer in around the certificate check: no fixed or derived
+	// session-ticket keys (resumption restores a peer identity without verifying it), no per-client
+	// configuration hook, no replaced clock or randomness, no key log, no InsecureSkipVerify
+	vsym.Assert("T10-no-setting-that-weakens-client-authentication", vsym.Rec("weakening") == "")
 	reg := "," + vsym.Rec("registered") + ","
 	for _, s := range []string{"WalletManager", "AccountManager", "Lister", "Signer", "DKG"} {
 		vsym.Assert("T7-every-service-on-the-authenticated-server", strings.Contains(reg, ","+s+","))
